@@ -2,6 +2,7 @@ import TonicModel.Lemmas.FramingWire
 import TonicModel.Lemmas.FramingDecLimit
 import TonicModel.Lemmas.FramingReserve
 import TonicModel.Lemmas.LimitCfg
+import TonicModel.Lemmas.FramingEncAfter
 /-
 C06 — Message size limits are enforced exactly and without collateral loss.
 -/
@@ -49,18 +50,31 @@ theorem C06_no_collateral_loss_server (cd : Codec α) (cfg : EncCfg) (hs : cfg.s
   exact ⟨pre, by simpa [Enc.init, owedSt] using hrun, hgood, by simpa [owedData] using hdata⟩
 
 /-- **No collateral loss (client).**  The request body delivers every message produced before
-the first failure and then fails with that status; without a failure it ends cleanly. -/
+the first failure — whole frames, nothing else: `pre` consists of `Pending`s and data chunks only, so the
+error below is the FIRST one — and then fails with that status; without a failure it ends cleanly.
+What the body does when it is polled AGAIN after that error is stated exactly, not left open: it
+resumes as a fresh body over the rest of the source (`rest`, a suffix of `evs`), so later messages can
+still produce DATA frames (`C06_client_polled_after_error_continues` is such a run).  The property does
+not forbid this: hyper drops a request body at its first error and the call fails with that status —
+the statement "nothing after the error" holds of the stream hyper reads, not of `poll_frame` called
+again; it never yields a trailers frame either way (`C03_client_body_never_trailers`). -/
 theorem C06_no_collateral_loss_client (cd : Codec α) (cfg : EncCfg) (hs : cfg.server = false)
     (evs : List (SrcEv α)) (n : Nat) (hn : evs.length + 1 < n) :
     ∃ pre, (∀ o ∈ pre, GoodChunk cd cfg o) ∧ dataConcat pre = framesOf cd cfg (okPrefix cd cfg evs) ∧
       match finalSt cd cfg evs with
-      | some st => ∃ post, Enc.run cd cfg n Enc.init evs = pre ++ .err st :: post
+      | some st => ∃ done rest, evs = done ++ rest ∧
+          Enc.run cd cfg n Enc.init evs = pre ++ .err st :: Enc.run cd cfg (n - pre.length - 1) Enc.init rest
       | none => Enc.run cd cfg n Enc.init evs = pre ++ List.replicate (n - pre.length) .none := by
   obtain ⟨pre, hgood, hdata, _, hrun⟩ := run_client cd cfg hs n none evs (by simp; omega)
   refine ⟨pre, hgood, by simpa [owedData] using hdata, ?_⟩
   simp only [owedSt] at hrun
   cases hf : finalSt cd cfg evs with
-  | some st => rw [hf] at hrun; exact hrun
+  | some st =>
+    rw [hf] at hrun
+    obtain ⟨post, hp⟩ := hrun
+    obtain ⟨done, rest, hev, hpost⟩ :=
+      run_client_err_resumes cd cfg hs n ⟨⟨[], none⟩, false⟩ evs rfl rfl pre post st hp
+    exact ⟨done, rest, hev, by rw [← hpost]; exact hp⟩
   | none => rw [hf] at hrun; exact hrun
 
 /-- **Incoming limit: refused as soon as the length prefix has been read.**  With a 5-byte
@@ -163,7 +177,11 @@ theorem C06_no_reservation_over_limit (cd : Codec α) (cfg : DecCfg) (s : DecSt)
 was judged and the length passed the limit test, before the body is read).  The transition function
 every other theorem speaks about is its first projection, the reservation `C06_no_reservation_over_limit`
 bounds is its second: in every state, one `decode_chunk` call reserves at most the limit, and what it
-reserves is the length it then tries to read. -/
+reserves is the length it then tries to read.  (Scope: `decodeChunkT` is a second, traced transcription written
+next to `Dec.decodeChunk`; `Dec.pollNext` / `Dec.run` call `decodeChunk`, not this function.  The first two
+conjuncts say that the two transcriptions agree; the third holds because the trace records `some len` in the
+branch behind the limit test.  That the REAL `decode_chunk` calls `buf.reserve(len)` at that place and nowhere
+earlier is not proved: it is the tie — the harness's allocation observer, see level_note.) -/
 theorem C06_reserve_in_the_transition (cd : Codec α) (cfg : DecCfg) (s : DecSt) :
     (Dec.decodeChunkT cd cfg s).1 = Dec.decodeChunk cd cfg s ∧
     (Dec.decodeChunkT cd cfg s).2 = Dec.chunkReserve cfg s ∧
@@ -257,6 +275,16 @@ example :
     okPrefix idCodec cfg evs = [[1, 2, 3], [4, 5, 6]] ∧ finalSt idCodec cfg evs = some ⟨11, .tooLargeEnc⟩ := by
   decide
 
+/-- **A client body polled again after its error goes on with the source** (the witness behind the
+`rest` of `C06_no_collateral_loss_client`; review lr4 #6): limit 2, messages of 1, 3 and 1 bytes — the second is
+refused with OUT_OF_RANGE, and a caller that polled again would be handed the frame of the third.  Only the
+first three results are what a transport sees (hyper stops at the error). -/
+theorem C06_client_polled_after_error_continues :
+    Enc.run idCodec { comp := none, yieldThr := 0, maxSize := some 2, server := false } 4 Enc.init
+        [.item [1], .item [1, 2, 3], .item [4]]
+      = [.data [0, 0, 0, 0, 1, 1], .err ⟨11, .tooLargeEnc⟩, .data [0, 0, 0, 0, 1, 4], .none] := by
+  decide
+
 /- Non-vacuity of the hypotheses of `C06_oversize_refused_any_chunking` / `C06_decode_exact`: one
 valid 2-byte message, then a prefix announcing 5 bytes against a limit of 4, nothing after it;
 the bytes cut inside the first payload and inside the oversized prefix, with a `Pending`. -/
@@ -287,51 +315,305 @@ theorem C06_config_last_set_wins (ops : List Op) :
   simpa [LimitCfg.Lemmas.Agree] using LimitCfg.Lemmas.agree_foldl ops _ [] LimitCfg.Lemmas.agree_init
 
 open LimitProg in
-/-- **A `server::Grpc` value through any history.**  For every program of configuration statements
-and calls of all four shapes (each call carrying at least one message each way, any number of them,
-oversized ones at any position), every call is answered as the property demands under the limits in
-force AT THAT CALL — read off the program text by the oracle: a request message is accepted iff
-within the decoding limit asked for last (4 MiB if never), an oversized one gives OUT_OF_RANGE (a
-streaming handler having received exactly the messages before it); the response delivers exactly
-the messages before the first one over the encoding limit asked for last, then OUT_OF_RANGE.
-Earlier calls — refused or not — and re-configuration after use leave nothing behind. -/
+/-- **A `server::Grpc` value through any history — in the configuration model.**  For every program of
+configuration statements and calls of all four shapes (each call carrying at least one message each way, any
+number of them, oversized ones at any position), `Model/LimitCfg.lean`'s answer to every call equals the
+oracle's, which reads the limits in force AT THAT CALL off the program text: a request message is accepted iff
+within the decoding limit asked for last (4 MiB if never), an oversized one gives OUT_OF_RANGE (a streaming
+handler having received exactly the messages before it); the response delivers exactly the messages before the
+first one over the encoding limit asked for last, then OUT_OF_RANGE.  Earlier calls — refused or not — and
+re-configuration after use leave nothing behind.
+WHAT THIS PROVES AND WHAT NOT: the content is (a) record-field update = "the last statement mentioning a field
+wins" (`C06_config_last_set_wins`) and (b) the recursive scans `recvAll` / `sendAll` = "first index over the
+limit".  `serverCall` is a hand-written abstraction over payload LENGTHS; it is not derived from `Call.serve`.
+Its scans are tied to the codec model by `C06_limit_decisions_are_the_codecs` (single decision, every acceptable
+flag), `C06_sendAll_is_the_encoders` and `C06_recvAll_is_the_streams` (whole sequences, `Enc.run` / `Dec.run`);
+the call level above them — shapes, `try_next` + `trailers()`, handler, "Missing request message" — and the
+claim that the real `server::Grpc` hands the configured numbers to the codec unchanged are carried by the
+`lim.seq` / `lim.genp` correspondence (this model IS the prediction there). -/
 theorem C06_limit_program_server (prog : List Stmt) (hwf : WellFormed prog = true) :
     LimitCfg.runServer LimitCfg.Cfg.init prog = Spec.LimitCfg.runServer [] prog :=
   LimitCfg.Lemmas.runServer_eq prog _ [] LimitCfg.Lemmas.agree_init hwf
 
 open LimitProg in
-/-- **A `client::Grpc` value through any history** (clones included): as
+/-- **A `client::Grpc` value through any history** (clones included) **— in the configuration model**: as
 `C06_limit_program_server`, with the directions exchanged — requests meet the encoding limit (the
 transport receives exactly the messages before the first oversized one, the call fails
-OUT_OF_RANGE), responses the decoding limit. -/
+OUT_OF_RANGE), responses the decoding limit.  The same remark applies: `clientCall` is a hand-written
+abstraction over payload lengths whose scans are tied to `Enc.run` / `Dec.run` by
+`C06_sendAll_is_the_encoders` / `C06_recvAll_is_the_streams`; its call level and the hand-over of the configured
+numbers by the real `client::Grpc` are the `lim.seq` / `lim.genp` correspondence. -/
 theorem C06_limit_program_client (prog : List Stmt) (hwf : WellFormed prog = true) :
     LimitCfg.runClient LimitCfg.Cfg.init prog = Spec.LimitCfg.runClient [] prog :=
   LimitCfg.Lemmas.runClient_eq prog _ [] LimitCfg.Lemmas.agree_init hwf
 
 /-- **The per-message decisions of the configuration model are the codec's.**  `decRefusesLen d`
-is `decode_chunk`'s answer to a prefix announcing that length under `max_message_size = d`
-(OUT_OF_RANGE at the prefix iff it says so), and `encRefusesLen e` is `finish_encoding`'s answer to
-a serializable message with that payload length under `max_message_size = e`. -/
+is `decode_chunk`'s answer to a 5-byte prefix announcing that length under `max_message_size = d`, for EVERY
+acceptable flag — 0, or 1 with a negotiated encoding — (OUT_OF_RANGE at the prefix iff it says so; with an
+unacceptable flag the answer is the flag's error whatever the length, never the size error), and
+`encRefusesLen e` is `finish_encoding`'s answer to a serializable message with that payload length under
+`max_message_size = e`.  This is the ONLY place where `Model/LimitCfg.lean` meets the codec model as far as
+single decisions go; the sequences are `C06_sendAll_is_the_encoders` / `C06_recvAll_is_the_streams`. -/
 theorem C06_limit_decisions_are_the_codecs (cd : Codec α) :
-    (∀ (cfg : DecCfg) (a b c d : UInt8) (rest : Bytes) (tr : Option Tr),
-      (Dec.decodeChunk cd cfg ⟨0 :: a :: b :: c :: d :: rest, .hdr, tr⟩).2 = .fail ⟨11, .tooLargeDec⟩
-        ↔ LimitCfg.decRefusesLen cfg.maxSize (readU32 a b c d) = true) ∧
+    (∀ (cfg : DecCfg) (f a b c d : UInt8) (rest : Bytes) (tr : Option Tr),
+      (f = 0 ∨ (f = 1 ∧ cfg.enc.isSome) →
+        ((Dec.decodeChunk cd cfg ⟨f :: a :: b :: c :: d :: rest, .hdr, tr⟩).2 = .fail ⟨11, .tooLargeDec⟩
+          ↔ LimitCfg.decRefusesLen cfg.maxSize (readU32 a b c d) = true)) ∧
+      (¬ (f = 0 ∨ (f = 1 ∧ cfg.enc.isSome)) →
+        (Dec.decodeChunk cd cfg ⟨f :: a :: b :: c :: d :: rest, .hdr, tr⟩).2 ≠ .fail ⟨11, .tooLargeDec⟩)) ∧
     (∀ (cfg : EncCfg) (m : α), cd.serFail m = false →
       (encodeErr cd cfg m = some ⟨11, .tooLargeEnc⟩
         ↔ LimitCfg.encRefusesLen cfg.maxSize (Framing.payload cd cfg m).length = true)) := by
-  refine ⟨fun cfg a b c d rest tr => ?_, fun cfg m hm => ?_⟩
+  refine ⟨fun cfg f a b c d rest tr => ⟨fun hf => ?_, fun hf => ?_⟩, fun cfg m hm => ?_⟩
   · have hl : (({ enc := none, maxSize := cfg.maxSize, dir := .request } : DecCfg).limit) = cfg.limit := rfl
     simp only [LimitCfg.decRefusesLen, hl, decide_eq_true_eq]
     constructor
     · intro h
       by_cases hover : readU32 a b c d > cfg.limit
       · exact hover
-      · exact absurd h (C06_within_limit_not_refused cd cfg 0 a b c d rest tr (Or.inl rfl) (by omega))
+      · exact absurd h (C06_within_limit_not_refused cd cfg f a b c d rest tr hf (by omega))
     · intro hover
-      rw [C06_oversize_refused_at_prefix cd cfg 0 a b c d rest tr (Or.inl rfl) hover]
+      rw [C06_oversize_refused_at_prefix cd cfg f a b c d rest tr hf hover]
+  · simp only [not_or, not_and] at hf
+    obtain ⟨h0, h1⟩ := hf
+    by_cases hf1 : f = 1
+    · have he : cfg.enc = none := by
+        cases hc : cfg.enc with
+        | none => rfl
+        | some e => exact absurd (by simp [hc]) (h1 hf1)
+      subst hf1
+      simp [Dec.decodeChunk, he]
+    · simp [Dec.decodeChunk, h0, hf1]
   · rw [(C06_encode_limit cd cfg m).2.1]
     simp only [hm, true_and, LimitCfg.encRefusesLen]
     cases cfg.maxSize <;> simp
+
+/-! ### The SEQUENCES of the configuration model are the codec model's runs
+
+`LimitCfg.sendAll` / `recvAll` — what `serverCall` / `clientCall` make of the messages of one call — are scans
+over payload LENGTHS, written by hand next to the codec model.  The next two theorems derive them from
+`Enc.run` / `Dec.run`: for every schedule / chunking the body (stream) delivers exactly the first
+`(sendAll …).1` (`(recvAll …).1`) messages and then OUT_OF_RANGE iff the second component says so.  What
+stays hand-written in `Model/LimitCfg.lean` — and is tied to the code by the `lim.seq` correspondence only —
+is the CALL level above that: which messages a call shape offers to the body (`take 1` for the
+single-message shapes), `try_next` + `trailers()` for a unary request, the handler's reaction, and the
+`Missing … message` outcome. -/
+
+/-- a schedule of serializable messages whose payloads fit the length prefix, with `Pending`s anywhere and no
+source error: what a `lim.seq` call hands to `EncodeBody` -/
+def Sendable (cd : Codec α) (cfg : EncCfg) : List (SrcEv α) → Prop
+  | [] => True
+  | .pending :: r => Sendable cd cfg r
+  | .item m :: r => cd.serFail m = false ∧ (Framing.payload cd cfg m).length ≤ u32Max ∧ Sendable cd cfg r
+  | .err _ :: _ => False
+
+private theorem sendAll_ghost (cd : Codec α) (cfg : EncCfg) (evs : List (SrcEv α)) (h : Sendable cd cfg evs) :
+    okPrefix cd cfg evs = (itemsOfEvs evs).take
+      (LimitCfg.sendAll cfg.maxSize ((itemsOfEvs evs).map (fun m => (Framing.payload cd cfg m).length))).1 ∧
+    finalSt cd cfg evs =
+      if (LimitCfg.sendAll cfg.maxSize ((itemsOfEvs evs).map (fun m => (Framing.payload cd cfg m).length))).2
+      then some ⟨11, .tooLargeEnc⟩ else none := by
+  induction evs with
+  | nil => simp [okPrefix, finalSt, itemsOfEvs, LimitCfg.sendAll]
+  | cons ev r ih =>
+    cases ev with
+    | pending => simp only [okPrefix, finalSt, itemsOfEvs]; exact ih h
+    | err st => exact absurd h (by simp [Sendable])
+    | item m =>
+      obtain ⟨hsf, h32, hr⟩ := h
+      obtain ⟨ih1, ih2⟩ := ih hr
+      have hdec := ((C06_limit_decisions_are_the_codecs cd).2 cfg m hsf)
+      have hnone := (C06_encode_limit cd cfg m).2.2.2
+      cases hx : LimitCfg.encRefusesLen cfg.maxSize (Framing.payload cd cfg m).length with
+      | true =>
+        have he : encodeErr cd cfg m = some ⟨11, .tooLargeEnc⟩ := hdec.mpr hx
+        simp [okPrefix, finalSt, itemsOfEvs, LimitCfg.sendAll, hx, he]
+      | false =>
+        have he : encodeErr cd cfg m = none := by
+          apply hnone.mpr
+          refine ⟨hsf, ?_, h32⟩
+          intro l hl
+          simp only [LimitCfg.encRefusesLen, hl, decide_eq_false_iff_not] at hx
+          omega
+        simp [okPrefix, finalSt, itemsOfEvs, LimitCfg.sendAll, hx, he, ih1, ih2]
+
+/-- **`sendAll` is what the encoder's body delivers.**  For every schedule of serializable messages
+(`Pending`s anywhere) polled to exhaustion, with `s = sendAll max_message_size <payload lengths>`: the body's
+data is exactly the frames of the first `s.1` messages; a server body then yields one trailers frame —
+OUT_OF_RANGE if `s.2`, OK otherwise — and `None` for ever; a client body yields OUT_OF_RANGE as its first
+error if `s.2` and ends cleanly otherwise. -/
+theorem C06_sendAll_is_the_encoders (cd : Codec α) (cfg : EncCfg) (evs : List (SrcEv α)) (hev : Sendable cd cfg evs)
+    (n : Nat) (hn : evs.length + 1 < n) :
+    let s := LimitCfg.sendAll cfg.maxSize ((itemsOfEvs evs).map (fun m => (Framing.payload cd cfg m).length))
+    ∃ pre, (∀ o ∈ pre, GoodChunk cd cfg o) ∧ dataConcat pre = framesOf cd cfg ((itemsOfEvs evs).take s.1) ∧
+      (cfg.server = true →
+        Enc.run cd cfg n Enc.init evs
+          = pre ++ [.trailers (if s.2 then ⟨11, .tooLargeEnc⟩ else St.okSt)] ++ List.replicate (n - pre.length - 1) .none) ∧
+      (cfg.server = false →
+        if s.2 then ∃ post, Enc.run cd cfg n Enc.init evs = pre ++ .err ⟨11, .tooLargeEnc⟩ :: post
+        else Enc.run cd cfg n Enc.init evs = pre ++ List.replicate (n - pre.length) .none) := by
+  intro s
+  obtain ⟨hok, hfin⟩ := sendAll_ghost cd cfg evs hev
+  cases hs : cfg.server with
+  | true =>
+    obtain ⟨pre, hrun, hgood, hdata⟩ := C06_no_collateral_loss_server cd cfg hs evs n hn
+    refine ⟨pre, hgood, by rw [hdata, hok], fun _ => ?_, fun h => by simp at h⟩
+    rw [hrun, hfin]
+    cases s.2 <;> simp
+  | false =>
+    obtain ⟨pre, hgood, hdata, hrun⟩ := C06_no_collateral_loss_client cd cfg hs evs n hn
+    refine ⟨pre, hgood, by rw [hdata, hok], fun h => by simp at h, fun _ => ?_⟩
+    rw [hfin] at hrun
+    cases h2 : s.2 with
+    | true =>
+      simp only [s] at h2
+      simp only [h2, ↓reduceIte] at hrun ⊢
+      obtain ⟨_, rest, _, hr⟩ := hrun
+      exact ⟨_, hr⟩
+    | false =>
+      simp only [s] at h2
+      simp only [h2, Bool.false_eq_true, ↓reduceIte] at hrun ⊢
+      exact hrun
+
+private theorem recvAll_split {β : Type} (d : Option Nat) (f : β → Nat) : ∀ (all : List β) (i : Nat),
+    LimitCfg.recvAll d (all.map f) = (i, true) →
+    ∃ a y b, all = a ++ y :: b ∧ a.length = i ∧ (∀ x ∈ a, LimitCfg.decRefusesLen d (f x) = false) ∧
+      LimitCfg.decRefusesLen d (f y) = true
+  | [], i, h => by simp [LimitCfg.recvAll] at h
+  | x :: xs, i, h => by
+    simp only [List.map_cons, LimitCfg.recvAll] at h
+    cases hx : LimitCfg.decRefusesLen d (f x) with
+    | true =>
+      simp only [hx, ↓reduceIte, Prod.mk.injEq, and_true] at h
+      exact ⟨[], x, xs, rfl, by simpa using h, by simp, hx⟩
+    | false =>
+      simp only [hx, Bool.false_eq_true, ↓reduceIte, Prod.mk.injEq] at h
+      obtain ⟨h1, h2⟩ := h
+      obtain ⟨a, y, b, hall, hlen, ha, hy⟩ := recvAll_split d f xs _ (Prod.ext rfl h2)
+      refine ⟨x :: a, y, b, by simp [hall], by simp [hlen, h1], ?_, hy⟩
+      intro z hz
+      rcases List.mem_cons.mp hz with rfl | hz
+      · exact hx
+      · exact ha z hz
+
+private theorem recvAll_all {β : Type} (d : Option Nat) (f : β → Nat) : ∀ (all : List β) (i : Nat),
+    LimitCfg.recvAll d (all.map f) = (i, false) →
+    i = all.length ∧ ∀ x ∈ all, LimitCfg.decRefusesLen d (f x) = false
+  | [], i, h => by simp [LimitCfg.recvAll] at h; simp [h]
+  | x :: xs, i, h => by
+    simp only [List.map_cons, LimitCfg.recvAll] at h
+    cases hx : LimitCfg.decRefusesLen d (f x) with
+    | true => simp [hx] at h
+    | false =>
+      simp only [hx, Bool.false_eq_true, ↓reduceIte, Prod.mk.injEq] at h
+      obtain ⟨h1, h2⟩ := h
+      obtain ⟨hl, ha⟩ := recvAll_all d f xs _ (Prod.ext rfl h2)
+      refine ⟨by simp [← h1, ← hl], ?_⟩
+      intro z hz
+      rcases List.mem_cons.mp hz with rfl | hz
+      · exact hx
+      · exact ha z hz
+
+private theorem flagOk_wireOf (cd : Codec α) (cfg : DecCfg) (x : Sent α) : FlagOk cfg (wireOf cd cfg.enc x).1 := by
+  unfold wireOf FlagOk
+  cases x.compressed <;> cases cfg.enc <;> simp
+
+private theorem frames_append (a b : List (UInt8 × Bytes)) :
+    Spec.Framing.frames (a ++ b) = Spec.Framing.frames a ++ Spec.Framing.frames b := by
+  induction a with
+  | nil => rfl
+  | cons fp r ih => obtain ⟨f, p⟩ := fp; simp [Spec.Framing.frames, ih]
+
+private theorem decRefuses_limit (cfg : DecCfg) (k : Nat) :
+    LimitCfg.decRefusesLen cfg.maxSize k = decide (k > cfg.limit) := rfl
+
+/-- **`recvAll` is what the decoder's stream yields.**  Let a sender frame ANY messages `all` (identity or
+compressed with the negotiated encoding, payloads below 2^32 — some possibly over the receive limit) and the
+body deliver those bytes in chunks cut anywhere with `Pending`s anywhere, then end.  With
+`r = recvAll max_message_size <wire payload lengths>`: the stream yields exactly the first `r.1` messages, in
+order, then OUT_OF_RANGE if `r.2` (and `None` for ever) or the end of the stream otherwise.  (`hk`: a request,
+or a response with HTTP status 200.) -/
+theorem C06_recvAll_is_the_streams (cd : Codec α) (cfg : DecCfg) (hk : cfg.skipsBody = false)
+    (all : List (Sent α)) (laws : CodecLawsOn cd all)
+    (h32 : ∀ x ∈ all, (wireOf cd cfg.enc x).2.length < 4294967296)
+    (evs : List BodyEv) (hplain : PlainEvs evs = true)
+    (hdata : dataOf evs = Spec.Framing.frames (all.map (wireOf cd cfg.enc)))
+    (n : Nat) (hn : evs.length + all.length < n) :
+    let r := LimitCfg.recvAll cfg.maxSize (all.map (fun x => (wireOf cd cfg.enc x).2.length))
+    ∃ k, nonPending (Dec.run cd cfg n Dec.init evs) =
+      (all.take r.1).map (fun x => Item.msg x.msg) ++
+        (if r.2 then .err ⟨11, .tooLargeDec⟩ :: List.replicate k .none else List.replicate (k + 1) .none) := by
+  intro r
+  cases h2 : r.2 with
+  | true =>
+    have hr : LimitCfg.recvAll cfg.maxSize (all.map (fun x => (wireOf cd cfg.enc x).2.length)) = (r.1, true) :=
+      Prod.ext rfl h2
+    obtain ⟨a, y, b, hall, hlen, ha, hy⟩ := recvAll_split cfg.maxSize _ all r.1 hr
+    have htake : all.take r.1 = a := by rw [hall, ← hlen]; simp
+    have hmem : ∀ x ∈ a, x ∈ all := fun x hx => by rw [hall]; simp [hx]
+    have hya : y ∈ all := by rw [hall]; simp
+    have hxs : ∀ x ∈ a, SentOk cd cfg x := by
+      intro x hx
+      have := ha x hx
+      rw [decRefuses_limit, decide_eq_false_iff_not] at this
+      exact ⟨by omega, h32 x (hmem x hx)⟩
+    have hover : (wireOf cd cfg.enc y).2.length > cfg.limit := by
+      rw [decRefuses_limit, decide_eq_true_eq] at hy; exact hy
+    have hd : dataOf evs = Spec.Framing.frames (a.map (wireOf cd cfg.enc)) ++
+        (wireOf cd cfg.enc y).1 :: (u32be (wireOf cd cfg.enc y).2.length ++
+          ((wireOf cd cfg.enc y).2 ++ Spec.Framing.frames (b.map (wireOf cd cfg.enc)))) := by
+      rw [hdata, hall, List.map_append, frames_append, List.map_cons]
+      simp [Spec.Framing.frames, Spec.Framing.frame, u32be]
+    obtain ⟨k, hkk⟩ := C06_oversize_refused_any_chunking cd cfg hk a
+      ⟨fun x hx => laws.de_ser x (hmem x hx), laws.dz_cz⟩ hxs _ _ _ (flagOk_wireOf cd cfg y) (h32 y hya) hover
+      evs hplain hd n (by have : a.length ≤ all.length := by rw [hall]; simp
+                          omega)
+    exact ⟨k, by rw [hkk, htake]; simp⟩
+  | false =>
+    have hr : LimitCfg.recvAll cfg.maxSize (all.map (fun x => (wireOf cd cfg.enc x).2.length)) = (r.1, false) :=
+      Prod.ext rfl h2
+    obtain ⟨hlen, ha⟩ := recvAll_all cfg.maxSize _ all r.1 hr
+    have hxs : ∀ x ∈ all, SentOk cd cfg x := by
+      intro x hx
+      have := ha x hx
+      rw [decRefuses_limit, decide_eq_false_iff_not] at this
+      exact ⟨by omega, h32 x hx⟩
+    have hb : batch (recvOf cd cfg) (dataOf evs) = (all.map (·.msg), .clean) := by
+      rw [hdata]; exact batch_wire_on cd cfg all laws hxs
+    have hresp : respTr cfg none = none := by
+      unfold respTr
+      cases hd : cfg.dir with
+      | request => rfl
+      | empty => rfl
+      | response http =>
+        have : http = 200 := by simpa [DecCfg.skipsBody, hd] using hk
+        subst this; rfl
+    obtain ⟨k, hkk⟩ := run_plain cd cfg hk n Dec.init evs (all.map (·.msg)) .clean _ (by simp [PhaseOk, Dec.init]) hplain
+      (by simpa [specFrom, Dec.init] using hb) rfl (by simpa using hn)
+    refine ⟨k, ?_⟩
+    rw [hkk, hlen]
+    simp [plainTail, plainEnd, Dec.init, hresp, List.map_map, Function.comp_def]
+
+/- Non-vacuity of the two bridge theorems: the schedule of `C06_client_polled_after_error_continues` with a
+`Pending` is `Sendable` and `sendAll` stops at its second message; a body of three frames (2, 5 and 1 payload
+bytes, limit 4) cut inside the first payload and inside the oversized prefix is a plain body of those frames and
+`recvAll` stops at the second. -/
+example :
+    let cfg : EncCfg := { comp := none, yieldThr := 0, maxSize := some 2, server := false }
+    Sendable idCodec cfg [.item [1], .pending, .item [1, 2, 3], .item [4]] ∧
+    LimitCfg.sendAll cfg.maxSize ((itemsOfEvs [SrcEv.item [1], .pending, .item [1, 2, 3], .item [4]]).map
+      (fun m => (Framing.payload idCodec cfg m).length)) = (1, true) := by
+  refine ⟨?_, by decide⟩
+  simp only [Sendable, and_true]
+  decide
+
+example :
+    let cfg : DecCfg := { enc := none, maxSize := some 4, dir := .request }
+    let all : List (Sent Bytes) := [⟨[1, 2], false⟩, ⟨[1, 2, 3, 4, 5], false⟩, ⟨[9], false⟩]
+    let evs : List BodyEv := [.data [0, 0, 0, 0, 2, 1], .pending, .data [2, 0, 0, 0], .data [0, 5, 1, 2, 3, 4, 5, 0, 0, 0, 0, 1, 9]]
+    PlainEvs evs = true ∧ dataOf evs = Spec.Framing.frames (all.map (wireOf idCodec cfg.enc)) ∧
+      LimitCfg.recvAll cfg.maxSize (all.map (fun x => (wireOf idCodec cfg.enc x).2.length)) = (1, true) := by
+  decide
 
 /- Non-vacuity: a well-formed program with re-configuration after use, a refused call in the middle
 and an oversized message in second position of a streaming request. -/
